@@ -54,6 +54,7 @@ type PayObs struct {
 	BtcHeight uint32
 	LHeight   uint32
 	Lnd       *LndPayReq // tier 2: the SendPaymentV2 request the real lnd adapter emitted
+	Cln       *ClnRoute  // tier 3: the sendpay route the real CLN adapter emitted
 }
 
 // LndPayReq: the fields of a routerrpc.SendPaymentRequest the oracles look at.
@@ -236,6 +237,7 @@ func New(p *Plan, monitors []Monitor) (*World, error) {
 		cfg.CrashAtOp[c.Node] = append(cfg.CrashAtOp[c.Node], c.AtOp)
 	}
 	w := &World{Plan: p, Dir: dir, Probes: map[string]int{}, faultOcc: map[string]int{}, Monitors: monitors}
+	curWorld = w
 	w.Sim = rt.New(cfg)
 	w.Net = newSimNet(w)
 	w.LN = newSimLN(w)
